@@ -189,6 +189,49 @@ func cmdDefs() []cmdDef {
 			cmd := c.Fetch(imap.SeqSetNum(1), &imap.FetchOptions{BodySection: []*imap.FetchItemBodySection{{Specifier: imap.PartSpecifierHeader, HeaderFields: []string{a[0], a[1]}}}})
 			return func() { cmd.Close() }
 		}},
+		// the remaining commands that take caller strings (extensions included: the bytes are judged,
+		// whatever the scripted server thinks of the command)
+		{"UNSUBSCRIBE", 1, func(c *imapclient.Client, a []string) func() { return wait(c.Unsubscribe(a[0])) }},
+		{"MOVE", 1, func(c *imapclient.Client, a []string) func() {
+			cmd := c.Move(imap.SeqSetNum(1), a[0])
+			return func() { cmd.Wait() }
+		}},
+		{"GETQUOTA", 1, func(c *imapclient.Client, a []string) func() {
+			cmd := c.GetQuota(a[0])
+			return func() { cmd.Wait() }
+		}},
+		{"GETQUOTAROOT", 1, func(c *imapclient.Client, a []string) func() {
+			cmd := c.GetQuotaRoot(a[0])
+			return func() { cmd.Wait() }
+		}},
+		{"SETQUOTA", 1, func(c *imapclient.Client, a []string) func() {
+			return wait(c.SetQuota(a[0], map[imap.QuotaResourceType]int64{imap.QuotaResourceStorage: 10}))
+		}},
+		{"GETMETADATA", 2, func(c *imapclient.Client, a []string) func() {
+			cmd := c.GetMetadata(a[0], []string{a[1]}, nil)
+			return func() { cmd.Wait() }
+		}},
+		{"SETMETADATA", 2, func(c *imapclient.Client, a []string) func() {
+			v := []byte(a[1])
+			return wait(c.SetMetadata("INBOX", map[string]*[]byte{a[0]: &v}))
+		}},
+		{"SORT-body-from", 2, func(c *imapclient.Client, a []string) func() {
+			cmd := c.Sort(&imapclient.SortOptions{SearchCriteria: &imap.SearchCriteria{Body: []string{a[0]}, Header: []imap.SearchCriteriaHeaderField{{Key: "From", Value: a[1]}}}, SortCriteria: []imapclient.SortCriterion{{Key: imapclient.SortKeyDate}}})
+			return func() { cmd.Wait() }
+		}},
+		{"THREAD-text", 1, func(c *imapclient.Client, a []string) func() {
+			cmd := c.Thread(&imapclient.ThreadOptions{Algorithm: imap.ThreadReferences, SearchCriteria: &imap.SearchCriteria{Text: []string{a[0]}}})
+			return func() { cmd.Wait() }
+		}},
+		{"SEARCH-header-key-not-or", 2, func(c *imapclient.Client, a []string) func() {
+			cmd := c.Search(&imap.SearchCriteria{Not: []imap.SearchCriteria{{Header: []imap.SearchCriteriaHeaderField{{Key: a[0], Value: "v"}}}},
+				Or: [][2]imap.SearchCriteria{{{Body: []string{a[1]}}, {Text: []string{"t"}}}}}, nil)
+			return func() { cmd.Wait() }
+		}},
+		{"SEARCH-modseq-entry-name", 1, func(c *imapclient.Client, a []string) func() {
+			cmd := c.Search(&imap.SearchCriteria{ModSeq: &imap.SearchCriteriaModSeq{ModSeq: 5, MetadataName: a[0], MetadataType: imap.SearchCriteriaMetadataAll}}, nil)
+			return func() { cmd.Wait() }
+		}},
 		{"APPEND-mailbox", 1, func(c *imapclient.Client, a []string) func() {
 			cmd := c.Append(a[0], 3, nil)
 			cmd.Write([]byte("abc"))
@@ -707,7 +750,7 @@ func main() {
 	run.Set("delay_bound", int64(dbound))
 	run.Set("preemption_bound", int64(pbound))
 	run.Exhaustive = exhaustive
-	run.Rule = "legality: (capability configuration in {rev1, LITERAL-, LITERAL+, IMAP4rev2, UTF8=ACCEPT advertised, capabilities unknown}) x (nothing / UTF8=ACCEPT / IMAP4rev2 enabled where offered / UTF8=ACCEPT asked but not granted / UTF8=ACCEPT granted, then UNAUTHENTICATE and a new LOGIN) x 13 commands x every member of a 21-string alphabet (NUL, CR LF, quote, backslash, 8-bit valid and invalid UTF-8, literal-looking text, lengths 4096/4097) in every string position and all pairs, plus APPEND sizes {0,1,4096,4097,70000}; the bytes the real client writes are judged by an independent scanner. synchronisation: 16 scenarios (LOGIN user/password/both literals, APPEND, SEARCH, two threads with literals; server grants, or refuses with NO/BAD) x all schedules within delay bound and preemption bound; connection write hooks flag bytes written while a continuation is awaited and payload bytes after a refusal"
+	run.Rule = "legality: (capability configuration in {rev1, LITERAL-, LITERAL+, IMAP4rev2, UTF8=ACCEPT advertised, capabilities unknown}) x (nothing / UTF8=ACCEPT / IMAP4rev2 enabled where offered / UTF8=ACCEPT asked but not granted / UTF8=ACCEPT granted, then UNAUTHENTICATE and a new LOGIN) x 24 commands (every client command that takes caller strings, incl. QUOTA, METADATA, SORT, THREAD, MOVE, SEARCH under NOT/OR and the CONDSTORE entry name) x every member of a 21-string alphabet (NUL, CR LF, quote, backslash, 8-bit valid and invalid UTF-8, literal-looking text, lengths 4096/4097) in every string position and all pairs, plus APPEND sizes {0,1,4096,4097,70000}; the bytes the real client writes are judged by an independent scanner. synchronisation: 16 scenarios (LOGIN user/password/both literals, APPEND, SEARCH, two threads with literals; server grants, or refuses with NO/BAD) x all schedules within delay bound and preemption bound; connection write hooks flag bytes written while a continuation is awaited and payload bytes after a refusal"
 	run.Assume("legality is judged against what the server ADVERTISED (greeting) and what was ENABLED; CHARSET usage is not judged (the statement does not mention it)")
 	run.Finish()
 }
